@@ -10,6 +10,9 @@ rule id exactly once per documented occurrence, at the occurrence line; acceptab
 of that linter's rule ids anywhere in the example. For the pattern linters the same holds for every copy of the example
 under an embedding drawn by Hypothesis (scope, indentation, filler before/after, 1..3 copies with locally bound
 identifiers renamed), restricted per linter to scopes that cannot themselves create or remove the pattern (SCOPES).
+The new identifiers of a renaming come in every usual shape (E.STYLES: snake suffix `result_x`, camelCase `resultX`,
+PascalCase `XResult`, snake prefix `x_result`, upper case `RESULT_X`, opaque fresh name `qx2`): the shape is drawn with every
+embedding, and every embeddable entry is additionally run once per shape with nothing but the renaming applied (exhaustive).
 """
 from __future__ import annotations
 
@@ -35,16 +38,19 @@ RULE = (
     "configuration the page states; fragments completed minimally and marked); for the pattern linters each embeddable entry "
     "is additionally run under Hypothesis-drawn embeddings: enclosing scope chain (0-2 of function/method/class/if/try/with/for, "
     "per linter only scopes that cannot create or remove the pattern), indent width, filler before/after outside and inside the "
-    "scope, 1-3 copies with locally bound identifiers renamed. Non-trivial: an embedding different from the identity, or an as-is "
+    "scope, 1-3 copies with locally bound identifiers renamed, the new identifiers shaped as one of snake suffix / camelCase / PascalCase / "
+    "snake prefix / UPPER_CASE / opaque fresh name; plus the exhaustive matrix embeddable entry x identifier shape with only the "
+    "renaming applied. Non-trivial: an embedding different from the identity, or an as-is "
     "entry with role 'violating' (a positive expectation). Distinct = (corpus entry, embedding class = scope chain, copies, "
-    "filler positions, renamed?)."
+    "filler positions, renamed?, identifier shape)."
 )
 ASSUMPTIONS = [
     "the curated reading of the docs (role, occurrence lines, configuration) in corpus/c19 is what the pages say; every judgement and exclusion is recorded there with its basis",
     "where a page contradicts itself about an occurrence's line (message block vs. shown code) either line is accepted",
     "'Before' blocks of refactoring sections are not judged unless the page says the linter reports them; other rule ids of the same linter on a violating example are not judged",
     "examples run with no configuration unless the page states one for the example (max=3, allow_expect: false, detect_isinstance, dry enabled ...); single-file examples use a neutral file name",
-    "renaming only touches module-level function/class names, parameters and locals (never builtins, attributes, methods, callees, imported names, keyword names; never verbose/log names for improper-logging)",
+    "renaming only touches module-level function/class names, parameters and locals (never builtins, attributes, methods, callees, imported names, keyword names; never verbose/log names for improper-logging); "
+    "a new identifier keeps the old one's leading underscores, and the shape falls back to the snake suffix where it would merge two names of the example",
     "an embedding is only judged when the same entry behaves as documented without embedding",
     "in-process CLI (click CliRunner) equals a fresh process; cross-checked on the first cases of every run",
 ]
@@ -204,7 +210,14 @@ def embeddings(draw, meta):
         "inner": draw(st.sampled_from([None, None] + meta["inner"])) if meta["inner"] else None,
         "guard": draw(st.sampled_from([None, "after"] if meta["no_before"] else [None, "before", "after"])),
         "rename": draw(st.sampled_from([None, "defs-only"])) if k > 1 else None,
+        "style": draw(st.sampled_from(E.STYLES)),
     }
+
+
+def rename_only(style):
+    """The embedding that only renames: one copy where it stands, every locally bound identifier restyled."""
+    return {"scope": [], "indent": 4, "k": 1, "tags": ["x"], "before": 0, "after": 0, "inner_before": 0, "inner_after": 0,
+            "inner": None, "guard": None, "rename": None, "style": style}
 
 
 def is_identity(emb):
@@ -328,7 +341,8 @@ EMBED_FEATURE = {
 def emb_class(emb):
     if is_identity(emb):
         return "identity"
-    return [emb["scope"], emb.get("inner"), emb["k"], bool(emb["before"]), bool(emb["after"]), bool(emb["inner_before"] or emb["inner_after"]), [bool(t) for t in emb["tags"]], emb.get("guard"), emb.get("rename")]
+    return [emb["scope"], emb.get("inner"), emb["k"], bool(emb["before"]), bool(emb["after"]), bool(emb["inner_before"] or emb["inner_after"]), [bool(t) for t in emb["tags"]], emb.get("guard"), emb.get("rename"),
+            emb.get("style") or "snake"]
 
 
 def check(case) -> Case:
@@ -399,6 +413,8 @@ def check(case) -> Case:
     observed2, anomalies2 = run_tool(entry, {f["path"]: "\n".join(f["lines"]) + "\n" for f in efiles})
     labels += [f"scope={'>'.join(emb['scope']) or 'module'}", f"k={emb['k']}", "renamed" if renamed else "not-renamed",
                "filler" if (emb["before"] or emb["after"] or emb["inner_before"] or emb["inner_after"]) else "no-filler", "guard-" + str(emb.get("guard")), "embedded"]
+    if renamed:
+        labels.append(f"rename-style={emb.get('style') or 'snake'}")
     if inner_applied:
         labels.append(f"inner-block={emb['inner']}")
     detail_base = {"entry": entry["id"], "doc": entry["doc"], "heading": entry["fences"][0]["heading"], "role": entry["role"], "embedding": emb,
@@ -435,6 +451,11 @@ def run(ctx):
     ctx.stats.extra.setdefault("matrix", {})["corpus entries as documented (exhaustive)"] = {"cells": len(mine), "done": done}
     emb_ids = [i for i in ids if embeddable(state["entries"][i]) is not None]
     ctx.stats.extra["corpus"]["embeddable_entries"] = len(emb_ids)
+    # every embeddable entry once under every identifier style, nothing else changed (one copy, in place, no filler)
+    rcells = [{"entry": i, "emb": rename_only(sty)} for i in emb_ids for sty in E.STYLES]
+    mine_r = ctx.my_cells(rcells)
+    done_r = ctx.each(mine_r, check)
+    ctx.stats.extra["matrix"]["embeddable entries x identifier style of the renaming (exhaustive)"] = {"cells": len(mine_r), "done": done_r}
     mine_e = ctx.my_cells(emb_ids)
     n = ctx.n(24, 400)
     for j, eid in enumerate(mine_e):
